@@ -64,6 +64,7 @@ func (s *State) clone() *State {
 
 // Gen is the whole-run generator.
 type Gen struct {
+	nestedOwnerCache map[string]string
 	pkgs      []*packages.Package
 	allPkgs   map[string]*packages.Package
 	prog      *ssa.Program
@@ -159,6 +160,16 @@ func (g *Gen) contractFor(fn *ssa.Function) *Contract {
 	f := fn
 	if f.Origin() != nil {
 		f = f.Origin()
+		// a contract for one instantiation of a generic function: `func Sort[[]int,int]`
+		if ta := fn.TypeArgs(); len(ta) > 0 {
+			var as []string
+			for _, t := range ta {
+				as = append(as, types.TypeString(t, func(p *types.Package) string { return p.Name() }))
+			}
+			if c := g.cs.ByKey[fnPkgPath(f)+"::"+fnKey(f)+"["+strings.Join(as, ",")+"]"]; c != nil {
+				return c
+			}
+		}
 	}
 	return g.cs.ByKey[fnPkgPath(f)+"::"+fnKey(f)]
 }
